@@ -100,6 +100,66 @@ CLAIMED = {
         technique="Coq proof (case analysis over the middleware's control flow with a trace-of-effects model) + model/implementation correspondence with exhaustive small products, real-Guard family, hostile-string fuzzing",
         design_ref="DESIGN.md 5/C20",
     ),
+    "C03": dict(
+        text="Theorems over the Gallina model of compiler.compile(policy)(env) as it is now: the compiler's categories are the "
+             "statement's tiers (id-specific / attribute-constrained / type-only among rules naming the request's type; wildcard "
+             "or absent type last); the buckets hold exactly the rules whose action and resource target match; and for every "
+             "single policy with an explicit known algorithm the compiled decision has the same decision, reported rule, "
+             "obligations and policy id as the reference evaluation of the policy restricted to the rules of the least tier "
+             "holding a matching rule, in document order (proved through a simulation showing that dropping not-applicable "
+             "rules from any rule list changes nothing but the reason text). Rules whose target does not match never matter: "
+             "inserting them anywhere leaves the compiled result literally unchanged; policy sets are delegated to the set "
+             "evaluator; the selected bucket is a sub-list of the policy's rules. The check judges the property directly "
+             "(Guard vs policy.evaluate on the tier-restricted policy, tiers computed from the statement), runs the "
+             "metamorphic insertion of non-matching rules at every position, and compares compile(policy)(env) with the "
+             "extracted model (broken correspondence if they differ while the property still holds).",
+        note="Trusted: Coq kernel; model tied to the code by differential execution only; extraction; harness (incl. its own tier "
+             "function written from the statement). The reason text is not part of the equivalence theorem (C11 pins it when "
+             "a rule is reported); the harness compares it when a rule is reported. Repaired findings F1, F2, F19 are corpus "
+             "witnesses and Examples.",
+        technique="Coq proof (simulation between rule loops under dropping of not-applicable rules; bucket/selection lemmas) + direct property judgement + metamorphic insertion + model/implementation correspondence",
+        design_ref="DESIGN.md 5/C03",
+    ),
+    "C12": dict(
+        text="Theorems over the Gallina model of LocalRelationshipChecker.check/batch_check (every store incl. cycles, self-loops, "
+             "duplicates; every rule map; every registry; every query; max_depth/max_nodes in Z; every deadline oracle, hence "
+             "every clock): answer True implies the relation is derivable within max_depth by an inductively defined least "
+             "fixpoint that does not mention the search, whatever the node budget and deadline; derivable within max_depth "
+             "implies True unless the node budget or the deadline fired in that run, and exactly True with a budget of "
+             "node_bound and no deadline hit; a True answer survives any more generous configuration; the search ends on every "
+             "store; batch_check equals the individual checks (memo included); unknown, false and raising caveats do not count "
+             "and the derivable relations are those of the store stripped of non-holding caveated tuples. A verified "
+             "executable spec (within_b) is applied to the implementation's answers: True for a non-derivable relation, or any "
+             "answer other than derivability when no limit fired in the model's run, is a violation with the case as replay; "
+             "other differences are broken correspondence.",
+        note="Trusted: Coq kernel; hand-written model tied to the code by differential execution only; extraction + ocamlopt; "
+             "harness. Direct tuples count at every visited node whether or not the rule mentions This() (as the code does). A "
+             "predicate is a function of the call's context raising only Exception subclasses; names and refs are str; limits "
+             "are ints; time is read only through time.perf_counter_ns (scripted test-side).",
+        technique="Coq proof (BFS loop invariant: non-decreasing two-level queue depths, seen nodes expanded, a promising node always waits; additive fuel over a finite node universe) + verified executable spec checker + model/implementation correspondence with scripted clock",
+        design_ref="DESIGN.md 5/C12",
+    ),
+    "C16": dict(
+        text="Theorems over the Gallina model of atomic_write (scripted step list mkstemp/fdopen/write pieces/close/os.replace/"
+             "finally-unlink, every step succeeding, raising or being the crash point; all scripts, all piece splits): target is "
+             "exactly old or exactly new, new iff the rename completed, in the final state and in every intermediate state "
+             "(timeline); a failed write whose cleanup did not itself fail leaves the directory literally unchanged; complete "
+             "outcome classification; other files untouched. Over all histories of writes/touches/deletes/atomic writes "
+             "interleaved with etag()/load(): etag() = h(current content) [+ mtime] / None for a missing file, hence equal for "
+             "unchanged and different for different content (h injective as hypothesis), under the property's own hypothesis "
+             "that (size, mtime_ns) determines content along the history and that no change falls inside one etag() call; "
+             "single-call characterisation exact <-> cache coherent; load() = parse by extension of the current content, "
+             "unconditionally. Correspondence: model extracted to OCaml vs /repo/src on a real temp directory with injected "
+             "exceptions and killed forked writers at every step and partial write, enumerated histories, reader/writer "
+             "threads; property clauses judged directly on the implementation's output.",
+        note="partial: atomicity of os.replace and post-crash visibility of completed system calls are the OS's (assumed; exercised "
+             "on the sandbox's file system); power-loss durability neither claimed nor modelled (no fsync in the code); sha256 "
+             "collision-freedom, json/yaml/jsonschema are hypotheses/oracles; target path assumed not of the form "
+             ".rbacx.tmp.<x>; etag theorems carry sig_determines (the statement's own carve-out) and quiet (no change between "
+             "stat and read inside one etag() call - outside the quantifier, witness c16_midcall_change_refuted).",
+        technique="Coq proof (case analysis over the try/with/finally structure with an induction over write pieces; history induction with a cache-justification invariant) + model/implementation correspondence with fault and crash injection",
+        design_ref="DESIGN.md 5/C16",
+    ),
 }
 
 PENDING_REASON = ("check not built yet at this commit (work in progress; the design in DESIGN.md section 5 covers it and "
